@@ -213,3 +213,35 @@ pub fn fixed_sources() -> Vec<String> {
         "typedef const SamplerState CS;\ntypedef CS SA[2];\nSamplerState s_first;\nSA s_table;\nSamplerState s_after;\ncbuffer P { float4 c; }\nSA s_more;\nTexture2D<float4> t_after;\n".to_string(),
     ]
 }
+
+pub const CONST_TAG: &str = "[tdr: element-const-of-typedef-array-printed-once]";
+
+/// Known class (genuine defect of the exporter, notes/C04.md finding 9): the `const` a typedef put on the ELEMENT type of a
+/// typedef'd resource array (`typedef const T CS; typedef CS SA[n]; SA g;` — chain const(array(const(obj)))) is printed
+/// (`const T g[n] : register(..)`: generate_type_impl suppresses the implicit const of the outer modifier layer only) and,
+/// read back, merges with the implicit const of the extern global and is not printed again.  Judged on the two emitted
+/// texts alone: a line pair of the class differs by exactly a leading `const ` on a global array declaration with a
+/// register annotation.  Returns (number of line pairs of the class, first differing line pair NOT of the class).
+pub fn split_const_lines(a: &str, b: &str) -> (usize, Option<String>) {
+    if a.lines().count() != b.lines().count() {
+        return (0, Some(super::first_diff(a, b)));
+    }
+    let mut n = 0;
+    let mut other = None;
+    for (i, (la, lb)) in a.lines().zip(b.lines()).enumerate() {
+        if la == lb {
+            continue;
+        }
+        let of_class = !la.starts_with(' ')
+            && la.strip_prefix("const ") == Some(lb)
+            && lb.contains('[')
+            && lb.contains("] : register(")
+            && lb.ends_with(");");
+        if of_class {
+            n += 1;
+        } else if other.is_none() {
+            other = Some(format!("line {}: `{}` became `{}`", i + 1, la.trim(), lb.trim()));
+        }
+    }
+    (n, other)
+}
